@@ -30,6 +30,13 @@
      DirectAddrUpdateState::run before spawning a task: the guard is dropped at once, no done
      signal is sent (SkipRun below); Close = the shutdown token is cancelled (a probe in flight
      ends early, the task still sends its done signal).
+   A second deviation switch, ClearOnHeld = TRUE: try_run *clears* want_update when it finds the
+   lock held ("the done signal is stale, the newer run covers the queued request").  It is wrong:
+   run N's done signal may still be pending in the channel (doneq > 0) when a later request
+   starts run N+1 directly and a further request is queued behind N+1; handling N's stale signal
+   then wipes that request, N+1 finishes and nothing starts -- named deviation
+   "C25_stale_done_clears_want"; refuted through the ghost `owed` (OwedIsQueued, NoLostRequest,
+   OwedLeadsToRun).
    The pinned code's order lets the Actor react to the done signal while the lock is still
    held: try_run misses, and a queued update stays queued with nothing left to trigger it --
    named deviation "C25_done_before_unlock".
@@ -40,6 +47,9 @@
 EXTENDS Naturals, Sequences, TLC, Json
 CONSTANTS MaxReq,       \* bound on update requests
           WithMap,      \* include relay-map changes and shutdown (growth)
+          ClearOnHeld,  \* TRUE: try_run clears want_update on a held lock (wrong); FALSE: leaves it alone
+          EmitAllUpTo,  \* generator: print every complete word with at most this many requests, and of the
+                        \* longer ones only those in which a stale done signal met a queued update
           UnlockFirst,  \* TRUE: guard dropped before the done signal (required); FALSE: code as written
           KeepHist
 VARIABLES lock, want, task, doneq, tail, nreq, runs,
@@ -47,59 +57,64 @@ VARIABLES lock, want, task, doneq, tail, nreq, runs,
           mapEmpty,     \* the relay map is empty
           closing,      \* the shutdown token is cancelled
           skipped,      \* ghost: runs that returned before spawning a task
+          owed,         \* ghost: an update was requested during a run and no run has started since
+          stale,        \* ghost: a done signal was handled while a newer run held the lock and an update was queued
           hist
-vars == <<lock, want, task, doneq, tail, nreq, runs, active, mapEmpty, closing, skipped, hist>>
+vars == <<lock, want, task, doneq, tail, nreq, runs, active, mapEmpty, closing, skipped, owed, stale, hist>>
 env == <<mapEmpty, closing>>
 
 Log(op) == hist' = IF KeepHist THEN Append(hist, op) ELSE hist
 
 Init == /\ lock = "free" /\ want = FALSE /\ task = "none" /\ doneq = 0 /\ tail = 0
         /\ nreq = 0 /\ runs = 0 /\ active = 0 /\ hist = <<>>
-        /\ mapEmpty = FALSE /\ closing = FALSE /\ skipped = 0
+        /\ mapEmpty = FALSE /\ closing = FALSE /\ skipped = 0 /\ owed = FALSE /\ stale = FALSE
 
 \* DirectAddrUpdateState::run with the guard just obtained
 \* (with an empty relay map or while shutting down it returns before spawning: guard dropped at once)
 StartRunIn(empty) ==
-  IF empty \/ closing
-    THEN skipped' = skipped + 1 /\ UNCHANGED <<lock, task, runs, active>>
-    ELSE lock' = "held" /\ task' = "probing" /\ runs' = runs + 1 /\ active' = active + 1 /\ UNCHANGED skipped
+  /\ owed' = FALSE          \* whatever was requested before is covered by this run (or by its early return)
+  /\ IF empty \/ closing
+       THEN skipped' = skipped + 1 /\ UNCHANGED <<lock, task, runs, active>>
+       ELSE lock' = "held" /\ task' = "probing" /\ runs' = runs + 1 /\ active' = active + 1 /\ UNCHANGED skipped
 StartRun == StartRunIn(mapEmpty)
 NoRun == UNCHANGED <<lock, task, runs, active, skipped>>
 
 ScheduleRun == /\ nreq < MaxReq /\ nreq' = nreq + 1
                /\ IF lock = "free" THEN StartRun /\ UNCHANGED want
-                                   ELSE want' = TRUE /\ NoRun
-               /\ UNCHANGED <<doneq, tail, env>> /\ Log("req")
+                                   ELSE want' = TRUE /\ owed' = TRUE /\ NoRun
+               /\ UNCHANGED <<doneq, tail, env, stale>> /\ Log("req")
 
 \* Socket::remove_relay / insert_relay followed by the Actor's handle_relay_map_change
 MapChange(empty) ==
   /\ WithMap /\ nreq < MaxReq /\ nreq' = nreq + 1 /\ mapEmpty' = empty
   /\ IF lock = "free" THEN StartRunIn(empty) /\ UNCHANGED want
-                      ELSE want' = TRUE /\ NoRun
-  /\ UNCHANGED <<doneq, tail, closing>> /\ Log(IF empty THEN "remove_relay" ELSE "insert_relay")
+                      ELSE want' = TRUE /\ owed' = TRUE /\ NoRun
+  /\ UNCHANGED <<doneq, tail, closing, stale>> /\ Log(IF empty THEN "remove_relay" ELSE "insert_relay")
 RemoveRelay == MapChange(TRUE)
 InsertRelay == MapChange(FALSE)
 \* the socket starts closing: shutdown token cancelled
 Close == /\ WithMap /\ ~closing /\ closing' = TRUE
-         /\ UNCHANGED <<lock, want, task, doneq, tail, nreq, runs, active, mapEmpty, skipped>> /\ Log("close")
+         /\ UNCHANGED <<lock, want, task, doneq, tail, nreq, runs, active, mapEmpty, skipped, owed, stale>> /\ Log("close")
 
 OnDone == /\ doneq > 0 /\ doneq' = doneq - 1
           /\ IF lock = "free" /\ want THEN StartRun /\ want' = FALSE
-                                      ELSE UNCHANGED want /\ NoRun
+             ELSE /\ want' = IF lock = "held" /\ ClearOnHeld THEN FALSE ELSE want
+                  /\ NoRun /\ UNCHANGED owed
+          /\ stale' = (stale \/ (lock = "held" /\ want))
           /\ UNCHANGED <<tail, nreq, env>> /\ Log("on_done")
 
 Probe == /\ task = "probing" /\ task' = "stored"
-         /\ UNCHANGED <<lock, want, doneq, tail, nreq, runs, active, env, skipped>> /\ Log("probe")
+         /\ UNCHANGED <<lock, want, doneq, tail, nreq, runs, active, env, skipped, owed, stale>> /\ Log("probe")
 
 SendDoneA == /\ task = "stored" /\ task' = "signalled" /\ doneq' = doneq + 1
-             /\ UNCHANGED <<lock, want, tail, nreq, runs, active, env, skipped>> /\ Log("send_done")
+             /\ UNCHANGED <<lock, want, tail, nreq, runs, active, env, skipped, owed, stale>> /\ Log("send_done")
 UnlockA   == /\ task = "signalled" /\ task' = "none" /\ lock' = "free" /\ active' = active - 1
-             /\ UNCHANGED <<want, doneq, tail, nreq, runs, env, skipped>> /\ Log("unlock")
+             /\ UNCHANGED <<want, doneq, tail, nreq, runs, env, skipped, owed, stale>> /\ Log("unlock")
 
 UnlockF   == /\ task = "stored" /\ task' = "none" /\ lock' = "free" /\ active' = active - 1 /\ tail' = tail + 1
-             /\ UNCHANGED <<want, doneq, nreq, runs, env, skipped>> /\ Log("unlock")
+             /\ UNCHANGED <<want, doneq, nreq, runs, env, skipped, owed, stale>> /\ Log("unlock")
 SendDoneF == /\ tail > 0 /\ tail' = tail - 1 /\ doneq' = doneq + 1
-             /\ UNCHANGED <<lock, want, task, nreq, runs, active, env, skipped>> /\ Log("send_done")
+             /\ UNCHANGED <<lock, want, task, nreq, runs, active, env, skipped, owed, stale>> /\ Log("send_done")
 
 NextCode  == ScheduleRun \/ OnDone \/ Probe \/ SendDoneA \/ UnlockA
 NextFixed == ScheduleRun \/ OnDone \/ Probe \/ UnlockF \/ SendDoneF
@@ -122,13 +137,20 @@ NoStuckWant == ~(want /\ Quiescent)
 \* ... and it is started as soon as the run in flight has finished (under weak fairness of the
 \* task and of the Actor's reaction to the done signal, without further requests)
 WantLeadsToRun == want ~> ~want
+\* the same, stated on the requests rather than on the code's want_update: a request made during a
+\* run stays queued until a run starts (refuted for ClearOnHeld = TRUE) ...
+OwedIsQueued == owed => want
+\* ... is never left over when nothing is in flight any more ...
+NoLostRequest == ~(owed /\ Quiescent)
+\* ... and leads to a run
+OwedLeadsToRun == owed ~> ~owed
 TypeOK == /\ lock \in {"free", "held"} /\ want \in BOOLEAN /\ doneq \in Nat /\ tail \in Nat
           /\ task \in {"none", "probing", "stored", "signalled"}
-          /\ mapEmpty \in BOOLEAN /\ closing \in BOOLEAN /\ skipped \in Nat
+          /\ mapEmpty \in BOOLEAN /\ closing \in BOOLEAN /\ skipped \in Nat /\ owed \in BOOLEAN /\ stale \in BOOLEAN
 \* a run that returns before spawning never leaves the lock held or a signal pending
 SkipLeavesNothing == [][skipped' # skipped => (lock' = lock /\ doneq' <= doneq /\ task' = task)]_vars
 
 \* word generator: complete words (nothing in flight any more)
-Emit == (KeepHist /\ hist # <<>> /\ Quiescent) =>
+Emit == (KeepHist /\ hist # <<>> /\ Quiescent /\ (nreq <= EmitAllUpTo \/ stale)) =>
           PrintT(<<"REPLAY", ToJson([word |-> hist, runs |-> runs, want |-> want])>>)
 =============================================================================
